@@ -44,6 +44,10 @@ class FaultSim(mosaik_api_v3.Simulator):
                 raise exc(f"injected fault in {name} of {self.sid}")
             if self.fault["kind"] == "exit":
                 os._exit(3)
+            if self.fault["kind"] == "sysexit":
+                sys.exit(3)
+            if self.fault["kind"] == "kbint":
+                raise KeyboardInterrupt()
             if self.fault["kind"] == "exit_idle":
                 # the process dies shortly AFTER it has answered this request: while mosaik has no request outstanding to it
                 import threading
